@@ -3,7 +3,8 @@ histories, compare canonical rows, and feed the implementation rows to the prope
 import random, json, os, hashlib
 from . import common, storep, storeb
 
-CLASSES = [("storep", "req"), ("storep", "prio"), ("storep", "filter"), ("storeb", "buffer"), ("storeb", "fleet")]
+CLASSES = [("storep", "req"), ("storep", "prio"), ("storep", "filter"), ("storeb", "buffer"), ("storeb", "fleet"),
+           ("storeb", "belt"), ("storeb", "slot")]
 P_FIELDS = ("items", "putq", "putres", "getq", "getres", "ptimes", "now")
 B_FIELDS = ("items", "ready", "putq", "putres", "getq", "getres")
 
